@@ -270,7 +270,10 @@ void ep_read_bin(ep_t a, const uint8_t *bin, size_t len) {
 				RLC_THROW(ERR_NO_VALID);
 				break;
 		}
-		ep_upk(a, a);
+		if (!ep_upk(a, a)) {
+			RLC_THROW(ERR_NO_VALID);
+			return;
+		}
 	}
 
 	if (len == 2 * RLC_FP_BYTES + 1) {
